@@ -107,6 +107,9 @@ MUTANTS = [  # (contract module, qualname, file, regex, replacement, expect)  ex
  ("contracts.c15", "BayesianNetwork.add_cpds", "pgmpy/models/BayesianNetwork.py", r"            for prev_cpd_index in range\(len\(self.cpds\)\):\n                if self.cpds\[prev_cpd_index\].variable == cpd.variable:", "            for prev_cpd_index, prev_cpd in enumerate(self.cpds[1:]):\n                if prev_cpd.variable == cpd.variable:", "break"),
  ("contracts.c08", "DAG._get_ancestors_of", "pgmpy/base/DAG.py", r"        ancestors_list = set\(\)\n        nodes_list = set\(nodes\)\n        while nodes_list:\n            node = nodes_list.pop\(\)\n            if node not in ancestors_list:\n                nodes_list.update\(self.predecessors\(node\)\)\n            ancestors_list.add\(node\)\n        return ancestors_list", "        ancestors = set()\n        to_visit = set(nodes)\n        while to_visit:\n            node = to_visit.pop()\n            if node in ancestors:\n                continue\n            to_visit.update(self.predecessors(node))\n            ancestors.add(node)\n        return ancestors", "hold"),
  ("contracts.c08", "DAG._get_ancestors_of", "pgmpy/base/DAG.py", r"        ancestors_list = set\(\)\n        nodes_list = set\(nodes\)\n        while nodes_list:\n            node = nodes_list.pop\(\)\n            if node not in ancestors_list:\n                nodes_list.update\(self.predecessors\(node\)\)\n            ancestors_list.add\(node\)\n        return ancestors_list", "        ancestors = set()\n        to_visit = set(nodes)\n        while to_visit:\n            node = to_visit.pop()\n            if node in ancestors:\n                continue\n            to_visit.update(self.successors(node))\n            ancestors.add(node)\n        return ancestors", "break"),
+ ("contracts.c15", "BayesianNetwork.remove_nodes_from", "pgmpy/models/BayesianNetwork.py", r"        for node in nodes:\n            self.remove_node\(node\)\n", "        for node in nodes:\n            if node in self.latents:\n                continue\n            self.remove_node(node)\n", "break"),
+ ("contracts.c15", "BayesianNetwork.remove_nodes_from", "pgmpy/models/BayesianNetwork.py", r"        for node in nodes:\n            self.remove_node\(node\)\n", "        for node in nodes:\n            self.remove_node(node)\n            break\n", "break"),
+ ("contracts.c15", "BayesianNetwork.remove_nodes_from", "pgmpy/models/BayesianNetwork.py", r"        for node in nodes:\n            self.remove_node\(node\)\n", "        for vanishing in nodes:\n            self.remove_node(vanishing)\n", "hold"),
  ("contracts.c15", "MarkovNetwork.add_factors", "pgmpy/models/MarkovNetwork.py", r"set\(factor.variables\) - set\(factor.variables\).intersection\(\n                set\(self.nodes\(\)\)\n            \)", "set(factor.variables[1:]) - set(self.nodes())", "break"),
 ]
 
